@@ -9,12 +9,15 @@ CLAIMED = {
              'result is compared with the set-theoretic result for ALL operand values within the bound (symbolic interval '
              'bounds, symbolic elements of sparse vectors of length 1..3, symbolic probe value), unwinding assertions on. '
              'This is the right level because the state space is flat integer data and the interesting inputs (duplicates, '
-             'extreme bounds, subset/superset pairs) are rare; the solver covers all of them inside the window.',
+             'extreme bounds, subset/superset pairs) are rare; the solver covers all of them inside the window. diff, ==, intersect, '
+             'is_disjoint and iter are decided a second time by symbolic execution of the MIR of fd.rs (engine M, props/c18m.py) for every pair '
+             'of operand shapes (interval with symbolic bounds; sparse built by the real From<Vec> from 1..3 symbolic unsorted elements).',
         note='Trusted: Kani 0.68 codegen, CBMC 6.11, CaDiCaL; every counterexample is replayed against a native build of the '
              'real library (dev and release) before it is reported. Bound: windows of 9 consecutive values at -4, isize::MIN and '
              'isize::MAX-8 (quick: centre window only), sparse length <= 3, full isize range for loop-free interval operations. '
-             'diff / == on mixed representations / sparse-sparse intersect are outside the Kani part (CBMC does not finish them).',
-        technique='bounded model checking of compiled Rust (Kani -> CBMC -> SAT), symbolic inputs, membership oracle',
+             'diff / == on mixed representations / sparse-sparse intersect are outside the Kani part (CBMC does not finish them) and are covered '
+             'by the MIR part: window |v| <= 2 (quick) / 4 (thorough), sparse operands of 1..3 (thorough 4) elements.',
+        technique='bounded model checking of compiled Rust (Kani -> CBMC -> SAT) plus symbolic execution of rustc MIR with z3; symbolic inputs, membership oracle',
         engine='kani',
         design='DESIGN.md §3 C18'),
 }
@@ -22,8 +25,8 @@ CLAIMED = {
 NA = {
 }
 
-MIRSYM_NOTE = ('Trusted: the mirsym executor (own MIR interpreter; Rc = shared heap cell, Box by value) and its models of std '
-               '(HashMap/HashSet as association lists iterated in insertion order, key equality through the crate\'s own PartialEq; Vec; Option/Result; '
+MIRSYM_NOTE = ('Trusted: the mirsym executor (own MIR interpreter; Rc = shared heap cell, Box by value with pointer-copy aliasing, raw-pointer writes) and its models of std '
+               '(HashMap/HashSet as association lists iterated in insertion order - FD and determinism templates are re-run with every iteration reversed / rotated -, key equality through the crate\'s own PartialEq; Vec; Option/Result; '
                'iterator adaptors; integer semantics with overflow checks), z3 5.1, the nightly MIR dump regenerated from /repo on every run. '
                'Every counterexample is replayed as a native Rust test against the real library before it is reported; a model that does not '
                'reproduce is exit 2, never a VIOLATION. ')
@@ -36,7 +39,7 @@ PROG_TEXT = ('Whole programs written with the real macros are compiled into a ge
 
 def prog_claim(what, design):
     return dict(level='other', text=PROG_TEXT + what,
-                note=MIRSYM_NOTE + 'Bound: the templates of props/tmpl.py listed in the evidence, parameters |p| <= 3, U = DefaultUser, E = StreamEngine.',
+                note=MIRSYM_NOTE + 'Bound: the templates of props/tmpl.py and the generated programs (seeded by VERIF_SEED) listed in the evidence, parameters |p| <= 3 (quick) / 4 (thorough), U = DefaultUser (C22: a counting User), E = StreamEngine.',
                 technique='symbolic execution of rustc MIR of whole programs (own executor + z3) against a reference interpreter; native replay',
                 engine='mirsym', design=design)
 
@@ -58,38 +61,38 @@ CLAIMED['C01'] = dict(
          'terms (the shape of a term is chosen only where the code inspects it; numbers are solver variables) for 1..3 sequential equations. Per path z3 decides, '
          'quantifying over ALL ground substitutions as values of an algebraic datatype: failure => no unifier exists; success => the bindings are acyclic, '
          'every instance of them solves the equations (sound) and every unifier is an instance of them (most general).',
-    note=MIRSYM_NOTE + 'Bound: term depth <= 2, <= 3 variables, <= 3 equations, leaves: numbers, [], booleans, two strings; proper/improper lists and the crate\'s tuple compound. #[compound] structs and user terms are outside.',
+    note=MIRSYM_NOTE + 'Bound: term depth <= 2, <= 3 variables, <= 3 equations, leaves: numbers, [], booleans, two strings; proper/improper lists and the crate\'s tuple compound; a template part adds unification / occurs check through #[compound] structs, Option fields and lists stored in compound fields. User terms are outside.',
     technique='symbolic execution of rustc MIR with lazy initialisation of term inputs; z3 (datatypes + bit-vectors) decides the mgu laws',
     engine='mirsym', design='DESIGN.md §3 C01')
 
 CLAIMED['C02'] = prog_claim('Here: eq/diseq/conde/fresh programs, every permutation of the constraint goals as its own template.', 'DESIGN.md §3 C02')
 CLAIMED['C03'] = prog_claim('Here additionally, on the real result objects: no program variable survives in an answer term or reported constraint, and the real '
                             'LResult::constraints()/is_constrained() return exactly the reported constraints with an operand among the reified variables of the answer term (nested lists / compounds included).', 'DESIGN.md §3 C03')
-CLAIMED['C05'] = prog_claim('Here: programs inside dfs { } (nested cond, conjunctions, member/append); the answer SEQUENCE must equal the depth-first reference order.', 'DESIGN.md §3 C05')
-CLAIMED['C06'] = prog_claim('Here: default interleaving search; answer multisets must coincide; for loop/anyo prefixes every produced answer must be a reference answer.', 'DESIGN.md §3 C06')
-CLAIMED['C08'] = prog_claim('Here: conda / condu / onceo with heads that have 0, 1 or several answers (several: in deterministic dfs order) and failing/succeeding rests.', 'DESIGN.md §3 C08')
-CLAIMED['C10'] = prog_claim('Here: conde { A, B } under a shared constraint prefix versus the union of the reference answers of A and of B; Rc sharing is modelled (shared heap cells, copy on make_mut), so an in-place update of shared state would be seen.', 'DESIGN.md §3 C10')
-CLAIMED['C11'] = prog_claim('Here: project |x| { .. } with a non-relational observer goal, reached by one or several states, with and without closure wrapper; panics are violations. One genuine defect is a recorded known finding.', 'DESIGN.md §3 C11')
-CLAIMED['C12'] = prog_claim('Here: `for x in &coll { body }` over Vec and LTerm-list collections of 0..3 elements versus the explicit conjunction.', 'DESIGN.md §3 C12')
-CLAIMED['C13'] = prog_claim('Here: match / matche / matcha / matchu expressions (alternatives, repeated names, wildcards, literal/list/improper/empty patterns, shadowing, empty bodies) translated by the real proc-macro.', 'DESIGN.md §3 C13')
-CLAIMED['C14'] = prog_claim('Here: the clause grammar and term syntax (literals of every kind, nested proper/improper lists, `_`, tuple compounds, fresh, conde, closure, true/false) translated by the real proc-macros.', 'DESIGN.md §3 C14')
+CLAIMED['C05'] = prog_claim('Here: programs inside dfs { } (nested cond, conjunctions, member/append, the binary DFSDisj node, 16 / 400 generated dfs programs); the answer SEQUENCE must equal the depth-first reference order.', 'DESIGN.md §3 C05')
+CLAIMED['C06'] = prog_claim('Here: default interleaving search (hand-written templates, 24 / 400 generated programs, dfs programs as multisets, the binary Disj node); answer multisets must coincide; for loop/anyo prefixes every produced answer must be a reference answer.', 'DESIGN.md §3 C06')
+CLAIMED['C08'] = prog_claim('Here: conda / condu / onceo with heads that have 0, 1 or several answers (several: in deterministic dfs order), heads that fail or succeed only after lazy steps, and failing/succeeding rests; 8 / 300 generated programs.', 'DESIGN.md §3 C08')
+CLAIMED['C10'] = prog_claim('Here: conde { A, B } under a shared constraint prefix versus the union of the reference answers of A and of B, including branches that share the domain store, the substitution, the constraint store, a term mutated through the list API, and goals that cache state; Rc sharing, raw-pointer writes and Box pointer copies are modelled, so an in-place update of shared state is seen.', 'DESIGN.md §3 C10')
+CLAIMED['C11'] = prog_claim('Here: project |x| { .. } with non-relational observer goals (number successor, Rust-level identity of two projected terms), aliased and completely unbound projected variables, reached by one or several states, with and without closure wrapper; panics are violations. One genuine defect is a recorded known finding.', 'DESIGN.md §3 C11')
+CLAIMED['C12'] = prog_claim('Here: `for x in &coll { body }` over Vec and LTerm-list collections of 0..7 elements (repeated elements, non-deterministic and multi-clause bodies) versus the explicit conjunction.', 'DESIGN.md §3 C12')
+CLAIMED['C13'] = prog_claim('Here: match / matche / matcha / matchu expressions (alternatives with equal and different name sets, repeated names, wildcards, literal / list / improper / nested-improper / empty patterns, shadowing of outer variables and of variables of the matched term, empty bodies, overlapping arms, statically failing committed arms) translated by the real proc-macro.', 'DESIGN.md §3 C13')
+CLAIMED['C14'] = prog_claim('Here: the clause grammar and term syntax (literals of every kind, nested proper/improper lists incl. improper literals with several heads nested in lists and in tails, `_`, tuple compounds, fresh, conde, empty conjunction clauses, closure, true/false directly in operator bodies, one goal value used twice) translated by the real proc-macros.', 'DESIGN.md §3 C14')
 CLAIMED['C15'] = prog_claim('Here: the scoping templates (shadowing, same-named variables in sibling scopes, pattern variables, recursive relations introducing fresh variables); alpha-renaming invariance is implied by agreement with the reference, which is name-free.', 'DESIGN.md §3 C15')
-CLAIMED['C04'] = prog_claim('Here: every listed permutation of the goals of a conjunction / of the clauses of a disjunction (eq, diseq, finite-domain constraints, member, conde) is its own template and must give exactly the reference answer multiset of the BASE order.', 'DESIGN.md §3 C04')
-CLAIMED['C07'] = prog_claim('Here (bounded form of fairness): disjunctions mixing finite goals with infinite producers (always, loop) and silent divergers (never); every answer of every productive branch must occur among the first N answers and within the step bound. A time-out of the native replay (watchdog) or a crash counts as reproduction.', 'DESIGN.md §3 C07')
-CLAIMED['C09'] = prog_claim('Here: every template function calls next() twice more after the first None (fused); prefix templates take the first N answers of infinite streams (lazy); determinism: each program is run twice on every path, once with hash-based stores iterated in insertion order and once with a solver-chosen permutation/rotation of that order, and the two answer SEQUENCES must coincide (native replay: 400 runs in one process must agree).', 'DESIGN.md §3 C09')
-CLAIMED['C16'] = prog_claim('Here: CLP(FD) programs over small signed interval and sparse domains (ltefd, ltfd, plusfd, minusfd, timesfd, diseqfd, distinctfd; operand aliasing; symbolic constants; constraints before/after domains and unifications) through propagation and labeling, compared as multisets of ground answers with brute-force enumeration of the domain product: no answer violates a constraint.', 'DESIGN.md §3 C16')
+CLAIMED['C04'] = prog_claim('Here: permutations of the goals of a conjunction / of the clauses of a disjunction (eq, chained and subsumed diseq, finite-domain constraints posted before and after bindings and domains, aliasing, sparse+interval domain merges, member, conde); identity, reverse and every rotation are always included (thorough: all permutations); each is its own template and must give exactly the reference answer multiset of the BASE order.', 'DESIGN.md §3 C04')
+CLAIMED['C07'] = prog_claim('Here (bounded form of fairness): disjunctions mixing finite goals with infinite producers (always, loop), silent divergers (never, recursive-closure divergers, diverging dfs blocks) and committed-choice operators whose first goal diverges or answers late; every answer of every productive branch must occur among the first N answers and within the step bound. A violation is replayed natively under a 30 s watchdog.', 'DESIGN.md §3 C07')
+CLAIMED['C09'] = prog_claim('Here: every template function calls next() twice more after the first None (fused); prefix templates take the first N answers of infinite streams, also inside dfs and next to diverging branches (lazy); determinism: each program is run up to five times on every path - hash-based stores iterated in insertion order, with a solver-chosen order of the first two iterations, and with EVERY iteration reversed (thorough: rotated, alternating, pairwise swapped) - and all answer sequences must coincide. An order dependence that needs another permutation is outside the bound (DESIGN.md section 6 describes one such residual observation).', 'DESIGN.md §3 C09')
+CLAIMED['C16'] = prog_claim('Here: CLP(FD) programs over small signed interval and sparse domains (ltefd, ltfd, plusfd, minusfd, timesfd, diseqfd, distinctfd; operand aliasing; symbolic constants; constraints before/after domains, unifications and bindings; domain transfer along binding chains; nested-list and compound query terms; hidden variables; 12 / 200 generated programs) through propagation and labeling versus brute-force enumeration of the domain product: no answer violates a constraint. Every template is also executed with every iteration of the hash-based stores reversed (thorough: rotated, swapped, alternating): soundness must not depend on the hash seed.', 'DESIGN.md §3 C16')
 CLAIMED['C17'] = prog_claim('Same CLP(FD) templates as C16: multiset equality with the brute-force enumeration also shows that every solution (list-shaped query terms, hidden variables) is returned, and exactly once.', 'DESIGN.md §3 C17')
-CLAIMED['C20'] = prog_claim('Here: the crate\'s tuple compound (a, b): field-wise unification, compound versus list/literal, occurs check through fields, disequality, deep walk* of both fields at reification, nesting; the reference treats a compound as a tagged constructor (the tagged-list reading). #[compound] structs and Option fields are outside this check.', 'DESIGN.md §3 C20')
+CLAIMED['C20'] = prog_claim('Here: the crate\'s tuple compound (a, b) and #[compound] structs (tuple-like structs, a struct with an Option<Leaf> field, a recursive struct with typed fields, a named struct reached through match patterns, typed variables; the definitions are expanded by the real attribute macro on every run): field-wise unification, compound versus list / literal / compound of another type, Some versus None, occurs check through fields, disequality, deep walk* at reification, finite-domain labeling of fields, nesting; the reference treats a compound as a tagged constructor (the tagged-list reading). Named-struct constructor syntax does not parse inside == in this version of the macros, so named values arise from patterns only.', 'DESIGN.md §3 C20')
 CLAIMED['C21'] = dict(
     level='other',
     text='Symbolic execution of the MIR of LTerm\'s PartialEq and Hash implementations (with LValue, VarID and the tuple compound) and of the list API '
-         '(LTermIter, head/tail, is_list/is_empty/is_improper, Index, contains, from_vec/from_array/collect/improper_from_vec, extend) on lazily initialised symbolic terms. '
+         '(LTermIter, LTermIterMut, head/tail, is_list/is_empty/is_improper, Index, IndexMut, contains, from_vec/from_array/collect/improper_from_vec, extend incl. extending a clone) on lazily initialised symbolic terms. '
          'z3 decides per path that == coincides with structural equality in both argument orders, that equal terms write identical hash transcripts, and that every list '
          'operation agrees with the element sequence read off the term.',
     note=MIRSYM_NOTE + 'Bound: term depth <= 2 for ==/hash, lists of <= 3 cells with elements of depth <= 1 (including [] elements, nested lists, improper tails); Display is outside.',
     technique='symbolic execution of rustc MIR with lazily initialised term inputs; z3 decides equality/hash/list laws per path; native replay',
     engine='mirsym', design='DESIGN.md §3 C21')
-CLAIMED['C22'] = prog_claim('Here: programs run with a generated User type that counts with_constraint / take_constraint / process_extension calls; probe goals between the goals expose [with - take - store size, number of extensions, size of the last extension] which must be [0, number of successful unifications so far, bindings added by the last one].', 'DESIGN.md §3 C22')
+CLAIMED['C22'] = prog_claim('Here: programs run with a generated User type that counts with_constraint / take_constraint / process_extension calls; probe goals between the goals expose [with - take - store size, number of extensions, size of the last extension]; the same balance is read off the answer state after reification.', 'DESIGN.md §3 C22')
 CLAIMED['C23'] = prog_claim('Here: well-formed programs of every family (CLP(Z) with disequalities, CLP(FD) with aliased and hidden variables, project in closures, for, matching, compounds, committed choice, dfs); every panic site reached on a feasible path is reported with concrete parameters and replayed.', 'DESIGN.md §3 C23')
 CLAIMED['C24'] = prog_claim('Here: member, member1, append, rember, permute, distinct, cons, first, rest, empty in several argument modes on lists of symbolic integers versus reference definitions written from the documentation.', 'DESIGN.md §3 C24')
 
